@@ -136,7 +136,8 @@ class n0dict_(n0dict__):
                     elif isinstance(value, str):
                         if not key.startswith("@"):
                             result += f"<{key}>"
-                            if value.lstrip().upper().startswith("<![CDATA[") and value.rstrip().endswith("]]>"):
+                            if value.lstrip().startswith("<![CDATA[") and value.rstrip().endswith("]]>") \
+                            and value.find("]]>") == len(value.rstrip()) - 3:  # one whole CDATA section, nothing after its end
                                 result += f"\n{' '*(indent+inc_indent)}{value}\n{' '*indent}"
                             else:
                                 result += value.translate(xml_entities)
